@@ -153,3 +153,451 @@ theorem good_createIn (s : State) (g : Good s) (d : Obj) (dn : Node) (name : Nam
     exact g.parent d dn hdn hd hdir hne
 
 end Fbr.Host.Ref
+
+namespace Fbr.Host.Ref
+
+theorem good_openObj (s : State) (g : Good s) (o : Obj) (fl : Nat) (ho : s.sent o = false) : Good (openObj s o fl).2 := by
+  unfold openObj
+  split
+  · exact g
+  · rename_i n hn
+    split
+    · exact g
+    · split
+      · exact good_newFd _ (good_setAttr s g o n { n with data := [], mtime := none } hn ho rfl rfl rfl) o fl ho
+      · exact good_newFd s g o fl ho
+
+theorem good_setTimes (s : State) (g : Good s) (o : Obj) (a b c d : Nat) (ho : s.sent o = false) : Good (setTimes s o a b c d).2 := by
+  unfold setTimes
+  split
+  · exact g
+  · rename_i n hn; exact good_setAttr s g o n _ hn ho rfl rfl rfl
+
+theorem good_chmodObj (s : State) (g : Good s) (o : Obj) (m : Nat) (ho : s.sent o = false) : Good (chmodObj s o m).2 := by
+  unfold chmodObj
+  split
+  · exact g
+  · rename_i n hn
+    split
+    · exact g
+    · exact good_setAttr s g o n _ hn ho rfl rfl rfl
+
+/-- a state that differs only in descriptor positions / flags, handles or credentials -/
+theorem good_of_fds (s s' : State) (g : Good s) (hn : s'.nodes = s.nodes) (hx : s'.next = s.next) (hs : s'.sent = s.sent)
+    (he : s'.exportRoot = s.exportRoot) (hh : s'.hostRoot = s.hostRoot)
+    (hf : ∀ f e, s'.fds f = some e → s.sent e.obj = false) (hha : ∀ h o, s'.handles h = some o → s.sent o = false) : Good s' := by
+  constructor
+  · intro d n nm c hd hsd hl; rw [hn] at hd; rw [hs] at hsd ⊢; exact g.children d n nm c hd hsd hl
+  · intro d n hd hsd hk hne; rw [hn] at hd; rw [hs] at hsd ⊢; rw [he] at hne; exact g.parent d n hd hsd hk hne
+  · rw [he, hh]; exact g.rootBelow
+  · rw [hs, hh]; exact g.hostRootOut
+  · intro o ho; rw [hx] at ho; rw [hs, hn]; exact g.fresh o ho
+  · intro f e h; rw [hs]; exact hf f e h
+  · intro h o hh'; rw [hs]; exact hha h o hh'
+
+theorem modNode_sent (s : State) (o : Obj) (f : Node → Node) : (modNode s o f).sent = s.sent := by
+  unfold modNode; split <;> rfl
+theorem modNode_exportRoot (s : State) (o : Obj) (f : Node → Node) : (modNode s o f).exportRoot = s.exportRoot := by
+  unfold modNode; split <;> rfl
+
+/-- the effect of a successful rename keeps `Good` -/
+theorem good_renameApply (s : State) (g : Good s) (od nd : Obj) (on nn : Name) (c : Obj) (cn : Node) (tgt : Option Obj)
+    (hod : s.sent od = false) (hnd : s.sent nd = false) (hc : s.sent c = false)
+    (ht : ∀ t, tgt = some t → s.sent t = false) : Good (renameApply s od nd on nn c cn tgt) := by
+  -- step 1: the replaced target loses a link
+  have h1 : ∃ s1, renameApply s od nd on nn c cn tgt =
+      (let s2 := modNode s1 od (fun n => removeEntry n on)
+       let s3 := modNode s2 nd (fun n => { removeEntry n nn with entries := (nn, c) :: (removeEntry n nn).entries })
+       if cn.kind == .dir then modNode s3 c (fun n => { n with parent := nd }) else s3) ∧
+      Good s1 ∧ s1.sent = s.sent := by
+    cases tgt with
+    | none => exact ⟨s, rfl, g, rfl⟩
+    | some t =>
+      have htin := ht t rfl
+      refine ⟨modNode s t (fun tn => { tn with nlink := if tn.kind == .dir then 0 else tn.nlink - 1 }), rfl, ?_, modNode_sent _ _ _⟩
+      refine good_modNode s g t _ htin ?_ ?_
+      · intro n hn nm c' hl; exact g.children t n nm c' hn htin hl
+      · intro n hn hdir hne; exact g.parent t n hn htin hdir hne
+  obtain ⟨s1, hs1, g1, e1⟩ := h1
+  rw [hs1]
+  dsimp only
+  -- step 2: the entry leaves the old directory
+  have hod1 : s1.sent od = false := by rw [e1]; exact hod
+  have g2 : Good (modNode s1 od (fun n => removeEntry n on)) := by
+    refine good_modNode s1 g1 od _ hod1 ?_ ?_
+    · intro n hn nm c' hl; exact g1.children od n nm c' hn hod1 (lookup_filter n.entries on nm c' hl)
+    · intro n hn hdir hne; exact g1.parent od n hn hod1 hdir hne
+  have e2 : (modNode s1 od (fun n => removeEntry n on)).sent = s.sent := by rw [modNode_sent, e1]
+  -- step 3: it enters the new directory (replacing an entry of that name)
+  have hnd2 : (modNode s1 od (fun n => removeEntry n on)).sent nd = false := by rw [e2]; exact hnd
+  have g3 : Good (modNode (modNode s1 od (fun n => removeEntry n on)) nd
+      (fun n => { removeEntry n nn with entries := (nn, c) :: (removeEntry n nn).entries })) := by
+    refine good_modNode _ g2 nd _ hnd2 ?_ ?_
+    · intro n hn nm c' hl
+      rcases lookup_cons_cases _ _ _ _ _ hl with h | h
+      · rw [h, e2]; exact hc
+      · exact g2.children nd n nm c' hn hnd2 (lookup_filter n.entries nn nm c' h)
+    · intro n hn hdir hne; exact g2.parent nd n hn hnd2 hdir hne
+  -- step 4: a moved directory gets its new parent
+  split
+  · refine good_modNode _ g3 c _ ?_ ?_ ?_
+    · rw [modNode_sent, e2]; exact hc
+    · intro n hn nm c' hl
+      exact g3.children c n nm c' hn (by rw [modNode_sent, e2]; exact hc) hl
+    · intro n hn _ _
+      show (modNode _ nd _).sent nd = false
+      rw [modNode_sent, e2]; exact hnd
+  · exact g3
+
+theorem createCheck_node (s : State) (d : Obj) (name : Name) (dn : Node) (h : createCheck s d name = .ok dn) :
+    s.nodes d = some dn := by
+  unfold createCheck at h
+  split at h
+  · cases h
+  · rename_i n hn
+    repeat' split at h
+    all_goals (cases h)
+    exact hn
+
+/-- **`Good` is preserved** by every call whose path-opening lookups are confined. -/
+theorem good_step (s : State) (g : Good s) (c : HCall) (hc : ConfinedOpen s c) : Good (stepCore s c).2 := by
+  cases c
+  case openat dfd name fl m =>
+    simp only [stepCore]
+    split
+    · exact g
+    rename_i d hd
+    have hdin := fdObj_inside s g dfd d hd
+    split
+    · split
+      · exact g
+      · rename_i dn hchk
+        have hdn : s.nodes d = some dn := createCheck_node s d _ dn hchk
+        have gc := good_createIn s g d dn name .reg (m &&& 4095) 0 [] hdn hdin
+        exact good_newFd _ gc.1 _ fl gc.2
+    · rename_i hce
+      rcases hc with h | ⟨hnf, hpath, hslash, hroot⟩
+      · exact absurd h hce
+      · -- a confined lookup
+        simp only [hnf, Bool.not_true]
+        split
+        · exact g
+        · rename_i o ho
+          have hl : lookup1 s d name = .ok o := by
+            unfold resolve at ho
+            split at ho
+            · cases ho
+            · simp only [hslash, Bool.not_false, if_true] at ho
+              exact walk_single_nofollow s d name o ho
+          have hoin : s.sent o = false :=
+            lookup1_inside s g d name o hdin (fun ⟨h1, h2⟩ => hroot ⟨by rw [hd, h1], h2⟩) hl
+          simp only [hpath, if_true]
+          exact good_newFd s g o fl hoin
+  case reopen f fl md =>
+    simp only [stepCore]
+    split
+    · exact g
+    · rename_i e he
+      split
+      · exact good_newFd s g e.obj fl (g.fds f e he)
+      · exact good_openObj s g e.obj fl (g.fds f e he)
+  case openByHandle h fl md =>
+    simp only [stepCore]
+    split
+    · exact g
+    split
+    · exact g
+    rename_i o ho
+    split
+    · exact g
+    split
+    · exact g
+    split
+    · exact good_newFd s g o fl (g.handles h o ho)
+    · exact good_openObj s g o fl (g.handles h o ho)
+  case nameToHandle f fl sz =>
+    simp only [stepCore]
+    split
+    · exact g
+    rename_i o ho
+    split
+    · exact g
+    split
+    · exact g
+    · refine good_of_fds s _ g rfl rfl rfl rfl rfl g.fds ?_
+      intro h o' hh
+      simp only at hh
+      split at hh
+      · cases hh; exact fdObj_inside s g f o ho
+      · exact g.handles h o' hh
+  case statx f n a b => simp only [stepCore]; repeat' split
+                        all_goals exact g
+  case fstatat f n a => simp only [stepCore]; repeat' split
+                        all_goals exact g
+  case mkdirat f n m =>
+    simp only [stepCore]
+    split
+    · exact g
+    rename_i d hd
+    split
+    · exact g
+    · rename_i dn hchk
+      have hdn : s.nodes d = some dn := createCheck_node s d _ dn hchk
+      exact (good_createIn s g d dn n .dir _ 0 [] hdn (fdObj_inside s g f d hd)).1
+  case mknodat f n m r =>
+    simp only [stepCore]
+    split
+    · exact g
+    rename_i d hd
+    split
+    · exact g
+    split
+    · exact g
+    split
+    · exact g
+    · rename_i dn hchk
+      have hdn : s.nodes d = some dn := createCheck_node s d _ dn hchk
+      exact (good_createIn s g d dn n _ _ _ [] hdn (fdObj_inside s g f d hd)).1
+  case symlinkat t f n =>
+    simp only [stepCore]
+    split
+    · exact g
+    rename_i d hd
+    split
+    · exact g
+    split
+    · exact g
+    · rename_i dn hchk
+      have hdn : s.nodes d = some dn := createCheck_node s d _ dn hchk
+      exact (good_createIn s g d dn n .lnk 511 0 t hdn (fdObj_inside s g f d hd)).1
+  case linkat f on nf n fl =>
+    simp only [stepCore]
+    split
+    · rename_i o d ho hd
+      have hoin := fdObj_inside s g f o ho
+      have hdin := fdObj_inside s g nf d hd
+      split
+      · exact g
+      rename_i nn hnn
+      split
+      · exact g
+      split
+      · exact g
+      rename_i dn hchk
+      have hdn : s.nodes d = some dn := createCheck_node s d _ dn hchk
+      split
+      · exact g
+      · have g1 := good_setAttr s g o nn { nn with nlink := nn.nlink + 1 } hnn hoin rfl rfl rfl
+        refine good_setNode _ g1 d _ hdin (lt_next_of_node s g d dn hdn) ?_ ?_
+        · intro nm c hl
+          rcases lookup_cons_cases _ _ _ _ _ hl with h | h
+          · rw [h]; exact hoin
+          · exact g.children d dn nm c hdn hdin h
+        · intro hdir hne; exact g.parent d dn hdn hdin hdir hne
+    · exact g
+  case unlinkat f n fl =>
+    simp only [stepCore]
+    split
+    · exact g
+    rename_i d hd
+    have hdin := fdObj_inside s g f d hd
+    split
+    · exact g
+    rename_i dn hdn
+    split
+    · exact g
+    split
+    · exact g
+    split
+    · exact g
+    split
+    · exact g
+    split
+    · exact g
+    split
+    · exact g
+    split
+    · exact g
+    rename_i c hcl
+    have hcin := g.children d dn n c hdn hdin hcl
+    split
+    · exact g
+    rename_i cn hcn
+    have hent : ∀ nm c', (removeEntry dn n).entries.lookup nm = some c' → s.sent c' = false := by
+      intro nm c' hl
+      exact g.children d dn nm c' hdn hdin (lookup_filter dn.entries n nm c' hl)
+    split
+    · split
+      · exact g
+      split
+      · exact g
+      · have g1 := good_setAttr s g c cn { cn with nlink := 0 } hcn hcin rfl rfl rfl
+        refine good_setNode _ g1 d _ hdin (lt_next_of_node s g d dn hdn) hent ?_
+        intro hdir hne; exact g.parent d dn hdn hdin hdir hne
+    · split
+      · exact g
+      · have g1 := good_setAttr s g c cn { cn with nlink := cn.nlink - 1 } hcn hcin rfl rfl rfl
+        refine good_setNode _ g1 d _ hdin (lt_next_of_node s g d dn hdn) hent ?_
+        intro hdir hne; exact g.parent d dn hdn hdin hdir hne
+  case renameat2 of on nf nn fl =>
+    simp only [stepCore]
+    split
+    · rename_i od nd hod hnd
+      have hodin := fdObj_inside s g of od hod
+      have hndin := fdObj_inside s g nf nd hnd
+      split
+      · rename_i odn ndn hodn hndn
+        split
+        · exact g
+        · exact g
+        · rename_i c cn hchk
+          have hcl := renameCheck_source s nd odn ndn on nn fl c cn hchk
+          have hcin := g.children od odn on c hodn hodin hcl
+          refine good_renameApply s g od nd on nn c cn _ hodin hndin hcin ?_
+          intro t ht
+          exact g.children nd ndn nn t hndn hndin ht
+      · exact g
+    · exact g
+  case readlinkat f n b => simp only [stepCore]; repeat' split
+                           all_goals exact g
+  case fchmod f m =>
+    simp only [stepCore]
+    split
+    · exact g
+    rename_i e he
+    split
+    · exact g
+    · exact good_chmodObj s g e.obj m (g.fds f e he)
+  case fchmodatProc f m fl =>
+    simp only [stepCore]
+    split
+    · exact g
+    · rename_i o ho; exact good_chmodObj s g o m (fdObj_inside s g f o ho)
+  case fchownat f n u gg fl =>
+    simp only [stepCore]
+    split
+    · exact g
+    rename_i o ho
+    split
+    · exact g
+    · rename_i nd hnd
+      refine good_setAttr s g o nd _ hnd (fdObj_inside s g f o ho) ?_ ?_ ?_ <;> (split <;> rfl)
+  case ftruncate f sz =>
+    simp only [stepCore]
+    split
+    · exact g
+    rename_i e he
+    split
+    · exact g
+    split
+    · exact g
+    rename_i nd hnd
+    split
+    · exact g
+    · exact good_setAttr s g e.obj nd _ hnd (g.fds f e he) rfl rfl rfl
+  case futimens f a b c d =>
+    simp only [stepCore]
+    split
+    · exact g
+    rename_i e he
+    split
+    · exact g
+    · exact good_setTimes s g e.obj a b c d (g.fds f e he)
+  case utimensatProc f a b c d fl =>
+    simp only [stepCore]
+    split
+    · exact g
+    · rename_i o ho; exact good_setTimes s g o a b c d (fdObj_inside s g f o ho)
+  case fallocate f m o l =>
+    simp only [stepCore]
+    split
+    · exact g
+    rename_i e he
+    split
+    · exact g
+    rename_i nd hnd
+    repeat' split
+    all_goals first | exact g | exact good_setAttr s g e.obj nd _ hnd (g.fds f e he) rfl rfl rfl
+  case lseek f o w =>
+    simp only [stepCore]
+    split
+    · exact g
+    rename_i e he
+    split
+    · exact g
+    split
+    · exact g
+    · refine good_of_fds s _ g rfl rfl rfl rfl rfl ?_ g.handles
+      intro f' e' h'
+      simp only at h'
+      split at h'
+      · cases h'; exact g.fds f e he
+      · exact g.fds f' e' h'
+  case preadv f l o => simp only [stepCore]; repeat' split
+                       all_goals exact g
+  case pwritev f d o =>
+    simp only [stepCore]
+    split
+    · exact g
+    rename_i e he
+    split
+    · exact g
+    rename_i nd hnd
+    repeat' split
+    all_goals first | exact g | exact good_setAttr s g e.obj nd _ hnd (g.fds f e he) rfl rfl rfl
+  case fstatvfs f => simp only [stepCore]; repeat' split
+                     all_goals exact g
+  case setxattr f n v fl =>
+    simp only [stepCore]
+    split
+    · exact g
+    rename_i o ho
+    split
+    · exact g
+    rename_i nd hnd
+    repeat' split
+    all_goals first | exact g | exact good_setAttr s g o nd _ hnd (fdObj_inside s g f o ho) rfl rfl rfl
+  case getxattr f n sz => simp only [stepCore]; repeat' split
+                          all_goals exact g
+  case listxattr f sz => simp only [stepCore]; repeat' split
+                         all_goals exact g
+  case removexattr f n =>
+    simp only [stepCore]
+    split
+    · exact g
+    rename_i o ho
+    split
+    · exact g
+    rename_i nd hnd
+    repeat' split
+    all_goals first | exact g | exact good_setAttr s g o nd _ hnd (fdObj_inside s g f o ho) rfl rfl rfl
+  case fsync f => simp only [stepCore]; repeat' split
+                  all_goals exact g
+  case fdatasync f => simp only [stepCore]; repeat' split
+                      all_goals exact g
+  case setfl f fl =>
+    simp only [stepCore]
+    split
+    · exact g
+    · rename_i e he
+      refine good_of_fds s _ g rfl rfl rfl rfl rfl ?_ g.handles
+      intro f' e' h'
+      simp only at h'
+      split at h'
+      · cases h'; exact g.fds f e he
+      · exact g.fds f' e' h'
+  case setresgid gg =>
+    simp only [stepCore]; split
+    · exact good_of_fds s _ g rfl rfl rfl rfl rfl g.fds g.handles
+    · exact g
+  case setresuid u =>
+    simp only [stepCore]; split
+    · exact good_of_fds s _ g rfl rfl rfl rfl rfl g.fds g.handles
+    · exact g
+  case capget => exact g
+  case capset b =>
+    simp only [stepCore]; split
+    · exact g
+    · exact good_of_fds s _ g rfl rfl rfl rfl rfl g.fds g.handles
+
+end Fbr.Host.Ref
